@@ -160,11 +160,29 @@ Definition op_mi_interleave (args : list sx) : sx :=
   | _ => bad_args
   end.
 
+(* mi_new_consumed d stream digest maxrs : NewDecoder on a plain source takes the 8-byte record size and nothing
+   more (whether it then accepts or refuses the stream), and nothing at all when the digest does not parse *)
+Definition op_mi_new_consumed (args : list sx) : sx :=
+  match args with
+  | [d; SB stream; SB digest; SZ maxrs] =>
+      match draft_of d with
+      | Some d' =>
+          let tag := match new_decoder sha256 d' stream digest (Z.to_N maxrs) with Ok _ => sym "ok" | _ => sym "err" end in
+          match parse_digest_header d' digest with
+          | Ok _ => SL [tag; sN (N.min 8 (lenN stream))]
+          | _ => SL [tag; sN 0]
+          end
+      | None => bad_args
+      end
+  | _ => bad_args
+  end.
+
 Definition dispatch_mice (op : bytes) (args : list sx) : option sx :=
   if bytes_eqb op (s2b "sha256") then Some (op_sha256 args)
   else if bytes_eqb op (s2b "b64") then Some (op_b64 args)
   else if bytes_eqb op (s2b "mi_enc") then Some (op_mi_enc args)
   else if bytes_eqb op (s2b "mi_dec") then Some (if is_ioerr args then op_mi_dec_ioerr args else op_mi_dec args)
+  else if bytes_eqb op (s2b "mi_new_consumed") then Some (op_mi_new_consumed args)
   else if bytes_eqb op (s2b "mi_interleave") then Some (op_mi_interleave args)
   else if bytes_eqb op (s2b "mi_dec_retry") then Some (op_mi_dec_retry args)
   else None.
